@@ -13,9 +13,60 @@ from fractions import Fraction
 from .absint import Lin
 
 
-def model_points(state, count=6, seed=20):
-    """Assignments {symbol: Fraction} consistent with a weak-order state whose atoms are plain symbols or constants.
-    None when an atom is a compound expression (then no refutation is attempted)."""
+def _lin_value(lin, env):
+    tot = lin.const
+    for k, c in lin.coef.items():
+        tot += c * env[k]  # KeyError: a symbol the assignment does not cover
+    return tot
+
+
+def consistent(state, env):
+    """Does the assignment satisfy the state's weak order and every refinement fact?"""
+    try:
+        vals = [_lin_value(lin, env) for _, lin in state.atoms]
+        for i in range(len(vals)):
+            for j in range(i):
+                a, b = vals[i] - vals[j], state.ranks[i] - state.ranks[j]
+                if (a > 0) - (a < 0) != (b > 0) - (b < 0):
+                    return False
+        for lin, strict in state.side:
+            v = _lin_value(lin, env)
+            if v > 0 or (strict and v == 0):
+                return False
+    except KeyError:
+        return False
+    return True
+
+
+def model_points(state, count=6, seed=20, tries=600):
+    """Assignments {symbol: Fraction} consistent with the state (its weak order of plain symbols and constants and
+    its refinement facts), found by sampling and checked exactly.  None when an atom is a compound expression."""
+    pinned = {}
+    facts = [(lin.key(), strict) for lin, strict in state.side]
+    for lin, strict in state.side:
+        # lin <= 0 and -lin <= 0 with a single symbol: the symbol is that number
+        if not strict and len(lin.coef) == 1 and (lin.neg().key(), False) in facts:
+            (k, c), = lin.coef.items()
+            pinned[k] = -lin.const / c
+    for k, v in list(pinned.items()):
+        rk = [r for (nm, lin), r in zip(state.atoms, state.ranks) if list(lin.coef) == [k] and lin.const == 0]
+        for (nm, lin), r in zip(state.atoms, state.ranks):
+            if rk and r == rk[0] and len(lin.coef) == 1 and lin.const == 0 and list(lin.coef.values())[0] == 1:
+                pinned[list(lin.coef)[0]] = v
+    out = []
+    for t in range(tries):
+        cand = _sample(state, seed + t)
+        if cand is None:
+            return None
+        cand.update(pinned)
+        if consistent(state, cand):
+            out.append(cand)
+            if len(out) >= count:
+                break
+    return out
+
+
+def _sample(state, seed):
     classes = {}
     for (name, lin), r in zip(state.atoms, state.ranks):
         classes.setdefault(r, []).append(lin)
@@ -28,10 +79,9 @@ def model_points(state, count=6, seed=20):
             elif not (len(lin.coef) == 1 and lin.const == 0 and list(lin.coef.values())[0] == 1):
                 return None
     rng = random.Random(seed)
-    points = []
-    for _ in range(count):
+    scale = rng.choice([1, 1, 4, 16, 64])  # small and large magnitudes: side facts may pin a symbol near a constant
+    if True:
         vals = {}
-        # walk the classes; free runs between fixed values are filled with sorted random rationals
         i = 0
         prev = None  # last assigned value
         while i < len(order):
@@ -48,13 +98,13 @@ def model_points(state, count=6, seed=20):
             hi = fixed[order[j]] if j < len(order) else None
             if prev is None and hi is None:
                 xs = sorted(rng.sample(range(-4000, 9000), len(run)))
-                xs = [Fraction(x, 16) for x in xs]
+                xs = [Fraction(x, 16 * scale) for x in xs]
             elif prev is None:
                 steps = sorted(rng.sample(range(1, 5000), len(run)), reverse=True)
-                xs = [hi - Fraction(x, 16) for x in steps]
+                xs = [hi - Fraction(x, 16 * scale) for x in steps]
             elif hi is None:
                 steps = sorted(rng.sample(range(1, 9000), len(run)))
-                xs = [prev + Fraction(x, 16) for x in steps]
+                xs = [prev + Fraction(x, 16 * scale) for x in steps]
             else:
                 steps = sorted(rng.sample(range(1, 4096), len(run)))
                 xs = [prev + (hi - prev) * Fraction(x, 4096) for x in steps]
@@ -67,8 +117,7 @@ def model_points(state, count=6, seed=20):
             for lin in classes[r]:
                 if not lin.is_const():
                     env[list(lin.coef)[0]] = vals[r]
-        points.append(env)
-    return points
+        return env
 
 
 def canon(state, symbols, v):
